@@ -66,8 +66,22 @@ PROPS.update({
         expect_probes=["evict.admission", "evict.narrowed", "stop", "sunset.stopped"]),
 })
 
+FS_NOTE = ("Trusted: the simulated file system's persistence model (simos): write/chmod volatile until fsync of the file, directory-entry changes "
+           "volatile until fsync of the containing directory (strict POSIX) or until any later fsync (ordered journal); rename atomic; no symlinks, no hard links. "
+           "local.go and durable/path.go are compiled unchanged except for the import path of package os. Process crash without power loss is not modelled.")
+PROPS["C13"] = {
+    "engine": "fs", "quick_budget": 45, "thorough_budget": 600, "level_note": FS_NOTE,
+    "level_text": "The real LocalBackend.Upload/Fetch/Discard and internal/durable run over an in-memory file system in which every system call is a scheduling and fault point (EIO, ENOSPC, short write, failing fsync/close) and 1-3 concurrent callers are interleaved call by call; after every call (sweep profiles) power-loss images are taken -- every subset of the un-synced directory changes when there are <= 6, seeded subsets beyond, three data variants (lost, complete, torn) -- mounted and read back. Oracle: acknowledged objects complete in every image, never a partial object under a final name, readers see old or new, immutable re-upload rules, keys confined, and an operation budget turns endless loops into failures.",
+    "expect_probes": ["crash.images", "concurrent.parked", "fault.EIO.fsync", "fault.short.write"],
+    "real": ["internal/ctlog/local.go (LocalBackend.Upload/Fetch/Discard, compareFile) and internal/durable/path.go (WriteFile, MkdirAll, Mkdir), compiled against the simulated os package", "path/filepath (Localize, Join, Clean)"],
+    "stubbed": ["package os -> verifsim/simos (in-memory file system with volatile and durable layers)", "internal/immutable -> inode flag in simos", "callers: generated uploads/fetches/discards instead of the sequencer"],
+    "assumptions": ["the persistence model of simos (see level_note)", "sampling: a clean batch is evidence, not proof"],
+}
+ENGINES.append({"name": "fs", "path": "overlay/verifsim/fs + overlay/verifsim/simos", "serves_properties": ["C13"],
+    "kind_free_text": "LocalBackend and internal/durable over a simulated file system; syscall-level scheduling, I/O faults, power-loss images"})
+
 NOT_APPLICABLE = {
     "C10": "pure function of its input (codec bijections): no schedule, clock, fault, I/O or second party for a simulator to control; deciding it is input generation (property-based testing), which is outside this technique. See DESIGN.md §6.",
 }
-for _p in ["C05", "C09", "C12", "C13", "C14", "C15", "C16", "C18", "C19", "C20"]:
+for _p in ["C05", "C09", "C12", "C14", "C15", "C16", "C18", "C19", "C20"]:
     NOT_APPLICABLE[_p] = "not claimed yet: the simulator for this property is still being built (see DESIGN.md §5 for the plan)"
